@@ -68,3 +68,12 @@ import BGV
 #print axioms BGV.C07_subLoop_oor_head
 #print axioms BGV.C07_rejected_unchanged
 #print axioms BGV.C07_history
+
+-- C08
+#print axioms BGV.C08_vertices
+#print axioms BGV.C08_dEdges
+#print axioms BGV.C08_begin_eq_end_iff
+#print axioms BGV.C08_mem_dEdges
+#print axioms BGV.C08_dEdges_nodup
+#print axioms BGV.C08_postIncr
+#print axioms BGV.C08_enumeration_defined
